@@ -8,20 +8,50 @@ B streams: cmp.match (xpath_match primitive, patterns from the trees' own key na
 C evaluators: match-spec (xpath_match against an independent tail-anchored reading), exclude and only (the two
               filter equations between the restricted and the unrestricted run), transform (entries of the
               run with transform = entries of the run on the mapped trees, values shown are the originals)
+Source tie: Gen/XPathMatch.lean is regenerated from the Python text of xpath_match by translate()
+            (harness/translate_py_cmp.py); C10_generated_xpath_match_eq proves it equal to the model; stream xmgen.match
+            compares the translated definition with the running function (notes/C10-gen.md).
 """
 import copy
+import re
 
 from harness import core
 from harness.core import enc_str, enc_val
 from harness.props import compare_common as cc
+from harness import translate_py_cmp as tr
 
 MANIFEST = dict(
     category="proof",
     technique="Lean 4 theorems over a hand-written model of the compare engine + differential correspondence with the implementation",
-    text='Lean theorems for every option record, flag record and both entry points: C10_xpath_match_spec / _zero / _pos / C10_str_vs_tuple (a pattern matches iff the parts after its last empty part equal the last parts of the path case-insensitively with * for one part; the result is the 1-based index of the first matching pattern; a str argument equals the one-element tuple); C10_exclude (the run with exclude_xpaths reports exactly the entries of the unrestricted run for which no tested prefix - one ending at a dictionary key, or the path of a list - matches, one line per remaining entry: both inclusions); C10_compare_only (entries located at dictionary entries are kept iff their path matches, entries located at list items are untouched). Transform (LeafTransform: every function is the identity on containers, maps scalars to scalars and None to a scalar or None): C10_transform_partial / C10_transform_verdict - for direct_compare, every other option and flag record, the run with transform on (a, b) and the run without it on the mapped trees (mapT) raise the same exception or return results of the same shape (line count, paths and pair kinds of the four lists), both directions; C10_transform_keyed / C10_transform_keyed_verdict (Proofs/CompareTransformKeyed.lean) - the same for the keyed/default entry point compare() WITHOUT a composite key on trees every list of which, at every depth, holds records only or leaves only: the n-th record meets the n-th record, and (fix C10-a) a leaf is keyed by the JSON text of its TRANSFORMED value, the key it has in the mapped tree, so both runs pair the same positions ([i]<>[j] included) and two leaves meet iff their transformed values have the same type and value (C10_transform_keyed_example: {"a":["A"]} vs {"a":["a"]} under ("//a", lower) reports nothing); KEPT AND REFUTED: C10_transform_stmt (both entry points, all trees) - C10_transform_refuted from C10_transform_keyed_nested_cex (known finding C10-b, what is left of C10-a: a list that is an item of a list is keyed by the JSON text of its UNtransformed leaves; needs a pattern naming the index of the inner list such as //a[0]); C10_transform_keyed_ck_cex - with a composite key the keyed statement fails even on lists of records (the key is built from the transformed field, which must be a str: TypeError for the identity on an int key field). The model (lean/N0Verif/Model/Compare.lean) follows n0dict.compare/direct_compare, n0list.compare/direct_compare, xpath_match, generate_composite_keys, update_extend and the flag machine branch by branch for the code WITH fix patches C07-a, C08-a, C09-a, C07-b, C07-c, C09-b, C10-a applied; it is compared with the implementation on generated pairs of trees (verdict, entry sets with rendered paths and values, number of prose lines, exception class) and the statement itself is executed on the implementation with Python-side oracles.',
-    note='str.lower() is modelled for ASCII (patterns/keys) and Latin-1 (transform lower); transform functions come from the family identity/lower/constant/numeric truncation (float lexemes of the form [-]d+.d+).',
+    text='Lean theorems for every option record, flag record and both entry points: C10_xpath_match_spec / _zero / _pos / C10_str_vs_tuple (a pattern matches iff the parts after its last empty part equal the last parts of the path case-insensitively with * for one part; the result is the 1-based index of the first matching pattern; a str argument equals the one-element tuple); C10_exclude (the run with exclude_xpaths reports exactly the entries of the unrestricted run for which no tested prefix - one ending at a dictionary key, or the path of a list - matches, one line per remaining entry: both inclusions); C10_compare_only (entries located at dictionary entries are kept iff their path matches, entries located at list items are untouched). Transform (LeafTransform: every function is the identity on containers, maps scalars to scalars and None to a scalar or None): C10_transform_partial / C10_transform_verdict - for direct_compare, every other option and flag record, the run with transform on (a, b) and the run without it on the mapped trees (mapT) raise the same exception or return results of the same shape (line count, paths and pair kinds of the four lists), both directions; C10_transform_keyed / C10_transform_keyed_verdict (Proofs/CompareTransformKeyed.lean) - the same for the keyed/default entry point compare() WITHOUT a composite key on trees every list of which, at every depth, holds records only or leaves only: the n-th record meets the n-th record, and (fix C10-a) a leaf is keyed by the JSON text of its TRANSFORMED value, the key it has in the mapped tree, so both runs pair the same positions ([i]<>[j] included) and two leaves meet iff their transformed values have the same type and value (C10_transform_keyed_example: {"a":["A"]} vs {"a":["a"]} under ("//a", lower) reports nothing); KEPT AND REFUTED: C10_transform_stmt (both entry points, all trees) - C10_transform_refuted from C10_transform_keyed_nested_cex (known finding C10-b, what is left of C10-a: a list that is an item of a list is keyed by the JSON text of its UNtransformed leaves; needs a pattern naming the index of the inner list such as //a[0]); C10_transform_keyed_ck_cex - with a composite key the keyed statement fails even on lists of records (the key is built from the transformed field, which must be a str: TypeError for the identity on an int key field). The model (lean/N0Verif/Model/Compare.lean) follows n0dict.compare/direct_compare, n0list.compare/direct_compare, xpath_match, generate_composite_keys, update_extend and the flag machine branch by branch for the code WITH fix patches C07-a, C08-a, C09-a, C07-b, C07-c, C09-b, C10-a applied; it is compared with the implementation on generated pairs of trees (verdict, entry sets with rendered paths and values, number of prose lines, exception class) and the statement itself is executed on the implementation with Python-side oracles. SOURCE TIE of the pure pattern matcher every option goes through: on every run harness/translate_py_cmp.py re-translates the Python text of xpath_match (str-or-sequence argument, split, two nested for loops with enumerate/reversed, return/break/for-else, lower(), *, the empty part) into lean/N0Verif/Gen/XPathMatch.lean (two specialisations: xpath_list a str / a tuple-or-list of str, joined by Compare.PatArg), and Lean re-checks C10_generated_xpath_match_eq (translated definition = hand-written Compare.xpathMatch for every path text and every PatArg; in particular the translated code never raises), C10_generated_xpath_match_seq_eq / _str_eq (= xpathMatchFrom), C10_generated_step_matchOne, and the C10 matcher facts restated over the translated code (C10_xpath_match_zero_generated, C10_xpath_match_pos_generated, C10_str_vs_tuple_generated). A change of xpath_match changes the generated text, so it either still satisfies the equalities or a proof obligation fails; code outside the translated subset is reported as a broken tie. The translated definition has its own correspondence stream (xmgen.match) against the running function. generate_composite_keys is NOT translated (dict values, callables, f-strings: outside the subset); it stays tied by the cmp.keys streams only.',
+    note='str.lower() is modelled for ASCII (patterns/keys) and Latin-1 (transform lower); transform functions come from the family identity/lower/constant/numeric truncation (float lexemes of the form [-]d+.d+). Trusted for the translator tie: the reading of the Python subset by the translator (notes/C10-gen.md, C01-gen.md, C13-gen.md) and the library definitions it uses (str.split = Py.split, str.lower = Py.lower i.e. ASCII lower-casing - non-ASCII cased letters are outside the model and the streams generate none -, reversed(list) in a loop header = List.reverse, x[i] = idxE, enumerate = List.zipIdx); the run-time class of the argument is the PatArg constructor (the TypeError branch for other classes is not translated).',
     design_ref='5/C10',
 )
+
+EXTRA_TARGETS = ("N0Verif.Gen.XPathMatch", "N0Verif.Proofs.XPathMatchGenEq")
+
+
+# ---------------------------------------------------------------------------
+# translator hook (A.1): regenerate Gen/XPathMatch.lean from the source under test
+# ---------------------------------------------------------------------------
+def translate(ctx):
+    info = {"file": "lean/N0Verif/Gen/XPathMatch.lean", "source": tr.SRC, "translator": "harness/translate_py_cmp.py"}
+    try:
+        legend, changed, differs = tr.regenerate(core.REPO)
+        info.update(names=legend, regenerated_text_changed=changed, differs_from_unchanged_code=differs)
+        if differs:
+            # the text is new: make sure Lean accepts it as definitions (the equalities are checked by the proof step)
+            rc, out = core.sh(["lake", "build", "N0Verif.Gen.XPathMatch"], cwd=core.LEAN_DIR)
+            if rc != 0:
+                raise tr.TranslateError("Lean rejects the generated definitions: " + out[-600:])
+    except tr.TranslateError as e:
+        # the code left the translated subset: the tie is broken, not the infrastructure.  Keep the text generated
+        # from the unchanged code and let B and C look for a failing input.
+        ctx.tie_broken.append({"tie": "translator harness/translate_py_cmp.py (Python subset -> Lean)", "detail": str(e)})
+        tr.restore_baseline()
+        info.update(error=str(e), restored="text generated from the unchanged code")
+    ctx.extra["translated"] = info
+
 
 EVAL = {}
 
@@ -158,7 +188,10 @@ def check_transform(c):
 @evaluator("match-spec")
 def check_match_spec(c):
     _, _, uc = cc.lib()
-    got = uc.xpath_match(c["xpath"], cc.py_patarg(c["pats"]))
+    r = core.call(uc.xpath_match, c["xpath"], cc.py_patarg(c["pats"]))
+    if r[0] == "err":  # (genxm) xpath_match raises nothing on str / sequence-of-str arguments (C10_generated_xpath_match_eq)
+        return {"xpath_match_raised": r[1]}
+    got = r[1]
     pats = [c["pats"]] if isinstance(c["pats"], str) else list(c["pats"])
     want = 0
     for i, p in enumerate(pats):
@@ -218,7 +251,42 @@ def shrink_failure(evaluator_name, case):
     return cc.shrink_case(case, lambda x: valid_case(x) and fn(x) is not None and known_class(x, fn(x)) is None)
 
 
+def match_impl(c):
+    _, _, uc = cc.lib()
+    r = core.call(uc.xpath_match, c["xpath"], cc.py_patarg(c["pats"]))
+    return "err " + r[1] if r[0] == "err" else "ok %d" % r[1]
+
+
 def replay(rp):
+    kind = rp.get("kind")
+    if kind == "tie":
+        # does the translator still refuse the source?
+        try:
+            tr.translate_source(tr.read_source(core.REPO))
+        except tr.TranslateError as e:
+            print("translator:", e)
+            return 1
+        print("translator: the source is inside the translated subset")
+        return 0
+    if kind == "proof":
+        # regenerate the definitions from the source and re-check the theorems
+        try:
+            _legend, _changed, differs = tr.regenerate(core.REPO)
+        except tr.TranslateError as e:
+            print("translator:", e)
+            return 1
+        rc, out = core.sh(["lake", "build", "N0Verif.Props.C10"], cwd=core.LEAN_DIR)
+        print("generated text differs from the text of the unchanged code:", differs)
+        print(out[-3000:])
+        print("result:", "the theorems check" if rc == 0 else "a proof obligation fails")
+        return 1 if rc != 0 else 0
+    if rp.get("correspondence_stream", "").split("/")[0] in ("xmgen.match", "cmp.match") and "line" in rp:
+        mo = core.run_driver([rp["line"]])[0]
+        io_ = match_impl(rp["case"])
+        print("correspondence replay (%s): %r" % (rp["correspondence_stream"], rp["case"]))
+        print("model:", mo)
+        print("impl :", io_)
+        return 1 if mo != io_ else 0
     return cc.generic_replay(rp, EVAL)
 
 
@@ -252,7 +320,57 @@ def keyed_safe_pattern(rng, a, b):
     return cc.mixcase(rng, out) if rng.random() < 0.3 else out
 
 
+XM_NAMES = cc.KEYS + ["x", "Name", "ID", "a1", "é", "Maße", "日"]  # non-ASCII entries are invariant under str.lower()
+
+
+def gen_xm_part(rng):
+    k = rng.random()
+    if k < 0.55:
+        s = rng.choice(XM_NAMES)
+    elif k < 0.70:
+        s = "*"
+    elif k < 0.80:
+        s = ""
+    elif k < 0.90:
+        s = rng.choice(XM_NAMES) + "[%d]" % rng.randrange(3)
+    else:
+        s = rng.choice(["**", "* ", "a*", " ", "[0]<>[1]", "0", "A.b", "a b"])
+    return cc.mixcase(rng, s) if rng.random() < 0.3 else s
+
+
+def gen_xm_text(rng, tail=None):
+    """a path or pattern text: parts from the name pool, `*`, empty parts (`//`, leading / trailing `/`), mixed case;
+    with `tail`, a text that ends like `tail` (so that matches are frequent)"""
+    n = rng.choice([0, 1, 1, 2, 2, 3, 4])
+    parts = [gen_xm_part(rng) for _ in range(n)]
+    if tail is not None and rng.random() < 0.6:
+        tp = tail.split("/")
+        keep = tp[len(tp) - rng.randint(1, len(tp)):]
+        keep = ["*" if rng.random() < 0.15 else (cc.mixcase(rng, x) if rng.random() < 0.3 else x) for x in keep]
+        parts = parts[: rng.choice([0, 0, 1])] + keep
+    s = "/".join(parts)
+    return rng.choice(["", "", "/", "/", "//"]) + s + rng.choice(["", "", "", "", "/"])
+
+
+def gen_xm_case(rng):
+    xp = gen_xm_text(rng)
+    if rng.random() < 0.3:
+        pats = gen_xm_text(rng, xp)  # given as str
+    else:
+        pats = [gen_xm_text(rng, xp) for _ in range(rng.choice([0, 1, 1, 2, 3, 4]))]
+    return {"xpath": xp, "pats": pats}
+
+
 def run(ctx):
+    if ctx.proof is not None and getattr(ctx.proof, "failed", None):
+        # say where the proof step broke (with a regenerated Gen/XPathMatch.lean this is normally
+        # Proofs/XPathMatchGenEq.lean: the translated source no longer equals the model)
+        log = ctx.proof.build_log or ""
+        ctx.extra["proof_step"] = {
+            "modules_with_errors": sorted(set(re.findall(r"^- (N0Verif\.\S+)", log, re.M))),
+            "first_errors": [l[:240] for l in log.split("\n") if l.startswith("error: N0Verif")][:6],
+            "generated_text_differs_from_unchanged_code": ctx.extra.get("translated", {}).get("differs_from_unchanged_code"),
+        }
     n = ctx.budget(6000, 60000)
     depth = ctx.budget(4, 5)
     _, _, uc = cc.lib()
@@ -272,10 +390,24 @@ def run(ctx):
         "cmp.match",
         mcases,
         lambda c: "cmp.match %s %s" % (enc_str(c["xpath"]), cc.enc_patarg(c["pats"])),
-        lambda c: "ok %d" % uc.xpath_match(c["xpath"], cc.py_patarg(c["pats"])),
+        match_impl,  # (genxm) the exception class if the function raises: a raising xpath_match is a disagreement, not a crash of the check
     )
     ctx.evaluate("match-spec", mcases, check_match_spec)
-    ctx.extra["match_hits"] = sum(1 for c in mcases if uc.xpath_match(c["xpath"], cc.py_patarg(c["pats"])))
+    # ---- the definition translated from the source (Gen/XPathMatch.lean) against the running function, on the cases above
+    # and on texts built for the matcher (names, `*`, `//`, empty parts, mixed case, str and tuple forms, the empty list)
+    rng = ctx.rng("xmgen")
+    nm = len(mcases) // 3
+    xcases = mcases[:nm] + [gen_xm_case(rng) for _ in range(n // 2)]
+    hit = lambda c: match_impl(c) != "ok 0" and match_impl(c).startswith("ok ")
+    ctx.correspond("xmgen.match", xcases, lambda c: "xmgen.match %s %s" % (enc_str(c["xpath"]), cc.enc_patarg(c["pats"])), match_impl, nontrivial=hit)
+    ctx.correspond("cmp.match/texts", xcases[nm:], lambda c: "cmp.match %s %s" % (enc_str(c["xpath"]), cc.enc_patarg(c["pats"])), match_impl, nontrivial=hit)
+    ctx.evaluate("match-spec/texts", xcases[nm:], check_match_spec, nontrivial=hit)
+    ctx.extra["xmgen_distribution"] = {
+        "cases": len(xcases), "matched": sum(1 for c in xcases if hit(c)), "str_form": sum(1 for c in xcases if isinstance(c["pats"], str)),
+        "empty_list": sum(1 for c in xcases if c["pats"] == []), "with_star": sum(1 for c in xcases if "*" in str(c["pats"])),
+        "with_empty_part": sum(1 for c in xcases if "//" in str(c["pats"]) or str(c["pats"]).startswith("/")),
+    }
+    ctx.extra["match_hits"] = sum(1 for c in mcases if match_impl(c) not in ("ok 0",) and match_impl(c).startswith("ok "))
     # ---- generate_composite_keys with transforms
     rng = ctx.rng("keys")
     kcases = []
@@ -369,4 +501,15 @@ def run(ctx):
         "trees are converted recursively; the model follows the code with fix patches C07-a, C08-a, C09-a, C07-b, C07-c, C09-b, C10-a applied",
         "keyed mode: transform patterns do not name list indexes (the index part of a path depends on the pairing); the one exception is the stream of the known finding C10-b",
     ]
-    ctx.extra["trusted_base"] = ["Python-side readings excluded_by / kept_by_only / map_tr / spec_match of harness/props/c10.py and compare_common.py"]
+    ctx.extra["assumptions"].append(
+        "translated xpath_match: translated for xpath a str and xpath_list a str or a tuple/list of str (the isinstance guards are decided per "
+        "specialisation, the TypeError branch for another class is not translated); str.lower() is the ASCII lower-casing of the model (the streams "
+        "use ASCII letters and non-ASCII characters that are invariant under lower())"
+    )
+    ctx.extra["trusted_base"] = [
+        "Python-side readings excluded_by / kept_by_only / map_tr / spec_match of harness/props/c10.py and compare_common.py",
+        "translator harness/translate_py_cmp.py: its reading of the Python subset (notes/C10-gen.md; base subsets notes/C01-gen.md, notes/C13-gen.md) and "
+        "the run-time support definitions it emits into Gen/XPathMatch.lean (foldC/Ctl, foldE, idxE, slices) together with Py/Basic.lean (split, lower) and "
+        "List.reverse / List.zipIdx for reversed() / enumerate(); the PatArg dispatch that stands for the run-time class of xpath_list; exercised by "
+        "the xmgen.match stream and by `translate_py_cmp.py --selftest`",
+    ]
